@@ -177,6 +177,27 @@ vf::Result sub_O3(uint16_t w, uint16_t x, uint32_t pc, uint64_t seed) {
     return vf::Result::pass();
 }
 
+// O7: the operand word of a two-word form is never executed as an instruction, also while a single-instruction repeat is
+// running (the fetch loop steps back over the repeated instruction: it must not land on the operand word)
+vf::Result sub_O7(uint16_t w, uint16_t x, uint32_t pc, uint64_t seed) {
+    const optable::Info& i = optable::info(w);
+    if (i.entry < 0 || !i.expanded || kControlTransfer.count(i.name))
+        return vf::Result::pass();
+    icase::ICase c = benign(w, x, pc, seed, seed != 0);
+    c.st[flat::F_rep] = 1;
+    c.st[flat::F_repc] = 1 + (seed >> 8) % 3;
+    c.cycles = 1;
+    icase::IResult r = sut().exec(c);
+    if (r.outcome != 0 || r.oob)
+        return vf::Result::pass();
+    vf::klass("O7: two-word form executed under an active repeat");
+    uint32_t pc1 = (uint32_t)r.after[flat::F_pc];
+    if (pc1 == pc + 1)
+        return vf::Result::fail("C02:O7:operand-executed:rep", "two-word " + i.form + " at " + vf::hex(pc) + " under an active repeat (repc=" + vf::hex(c.st[flat::F_repc]) +
+                                                                   "): the next instruction is fetched from its operand word (" + vf::hex(pc1) + ")");
+    return vf::Result::pass();
+}
+
 // bit b of word w is declared unused: text and execution must not depend on it
 vf::Result sub_O4_exec(uint16_t w, uint16_t x, uint32_t pc, uint64_t seed, int bit) {
     uint16_t w2 = w ^ (uint16_t)(1u << bit);
@@ -327,6 +348,8 @@ vf::Result run_body(const std::string& body) {
         return sub_O5(w, x);
     if (t[0] == "O6")
         return sub_O6(w, x, pc, seed);
+    if (t[0] == "O7")
+        return sub_O7(w, x, pc, seed);
     return vf::Result::pass();
 }
 
@@ -374,6 +397,8 @@ int main(int argc, char** argv) {
             c.current = [&] { return body_of("O3", w, x, pc, seed, 0); };
             vf::enum_result(prop, sub_O3(w, x, pc, seed), [&] { return body_of("O3", w, x, pc, seed, 0); }, [&] { return sub_O3(w, x, pc, seed); });
             vf::enum_result(prop, sub_O5(w, x), [&] { return body_of("O5", w, x, 0, 0, 0); }, [&] { return sub_O5(w, x); });
+            if (k >= 1 && k <= 2 && info.expanded)
+                vf::enum_result(prop, sub_O7(w, x, pc, seed), [&] { return body_of("O7", w, x, pc, seed, 0); }, [&] { return sub_O7(w, x, pc, seed); });
             if (k == 1 && info.expanded) {
                 uint32_t pc6 = 0x0400 + (wi & 0x3FFF); // one address per first word on the second core: it has never seen (w, pc6) before
                 vf::enum_result(prop, sub_O6(w, x, pc6, seed), [&] { return body_of("O6", w, x, pc6, seed, 0); }, [&] { return sub_O6(w, x, pc6, seed); });
